@@ -65,6 +65,8 @@ type Event struct {
 	Func  string   // debug name
 	Vals  []uint64 // i32/f32 in the low 32 bits, i64/f64 full width
 	Chain []string // before only: call chain from the callee outward, within the current call engine
+	// Inst: the instance whose function this is (nil: the host function)
+	Inst *Inst
 	// Exhaustion: abort only: the frame is unwound by stack exhaustion inside its own call engine
 	Exhaustion bool
 }
@@ -103,6 +105,7 @@ type World struct {
 
 func (w *World) emit(in *Inst, e Event) {
 	if w.Listen != nil && w.Listen(in, e.Func) {
+		e.Inst = in
 		w.Events = append(w.Events, e)
 	}
 }
